@@ -132,6 +132,10 @@ func (r *dataReader) Read(b []byte) (n int, err error) {
 				r.state = stateBeginLine
 				break
 			}
+			if c == '\r' {
+				// still a candidate for \r\n
+				break
+			}
 			r.state = stateData
 		case stateData:
 			if c == '\r' {
